@@ -511,6 +511,18 @@ func acceptRacePass(c *vh.Ctx) {
 					continue
 				}
 				tag := fmt.Sprintf("acceptrace:%s", map[int]string{1: "before-close", 2: "at-close", 3: "after-close"}[mode])
+				// state-change notifications, stamped (none may arrive after Close has returned)
+				var nmu sync.Mutex
+				type note struct {
+					t    time.Time
+					next hsms.ConnState
+				}
+				var notes []note
+				r.Conn.AddConnStateChangeHandler(func(_, next hsms.ConnState) {
+					nmu.Lock()
+					notes = append(notes, note{time.Now(), next})
+					nmu.Unlock()
+				})
 				if o := r.Open(false, 2*time.Second); o.Class != "ok" {
 					c.Fail("C10: Open(background) failed", tag+" "+rname(r)+": "+o.Class)
 					continue
@@ -519,12 +531,50 @@ func acceptRacePass(c *vh.Ctx) {
 				peerEnd := r.ArmRace(mode, time.Second)
 				if peerEnd == nil {
 					c.Fail("C10: harness: could not arm the accept race", tag+" "+rname(r))
+				} else if !s1 {
+					// the late-accepted peer pipelines Select.req and a data primary at once
+					go func() {
+						_ = peerEnd.SetWriteDeadline(time.Now().Add(500 * time.Millisecond))
+						_, _ = peerEnd.Write(append(lc.Enc(r.Sid, 0, 0, 0, 1, 0x71000001, nil), lc.Enc(r.Sid, 0x81, 1, 0, 0, 0x71000002, nil)...))
+					}()
 				}
 				res := r.Close()
+				closedAt := time.Now()
 				checkCloseLatency(c, r, res, tag)
 				if res.Class != "ok" {
 					c.Fail("C10: Close of a listening connection failed", tag+" "+rname(r)+": "+res.Class)
 				}
+				// State() is NotConnected when Close returns and stays so; nothing is notified afterwards;
+				// sends are refused
+				st0 := r.Conn.State()
+				time.Sleep(60 * time.Millisecond)
+				st1 := r.Conn.State()
+				if st0 != hsms.NotConnectedState || st1 != hsms.NotConnectedState {
+					c.Fail("C10: State() is not NotConnected after Close returned (a peer accepted around Close was selected)",
+						fmt.Sprintf("%s %s at_return=%v 60ms_later=%v", tag, rname(r), st0, st1))
+				}
+				nmu.Lock()
+				for _, n := range notes {
+					if n.t.After(closedAt.Add(5 * time.Millisecond)) {
+						c.Fail("C10: state-change notification after Close returned", fmt.Sprintf("%s %s next=%v", tag, rname(r), n.next))
+					}
+				}
+				nmu.Unlock()
+				if ok, _, _ := r.SendRoundTrip(50 * time.Millisecond); ok {
+					c.Fail("C10: a send succeeded on a closed connection", tag+" "+rname(r))
+				}
+				func() {
+					defer func() {
+						if p := recover(); p != nil {
+							c.Fail("C10: SendDataMessageAsync panicked on a closed connection", tag+" "+rname(r))
+						}
+					}()
+					ctx, cancel := context.WithTimeout(context.Background(), 50*time.Millisecond)
+					defer cancel()
+					if err := r.Conn.SendDataMessageAsync(ctx, 1, 1, false, nil); err == nil {
+						c.Fail("C10: an async send was accepted on a closed connection", tag+" "+rname(r))
+					}
+				}()
 				taken := !r.RaceLeft()
 				if taken && peerEnd != nil {
 					// the library accepted the peer's connection: it must have closed it by now
